@@ -45,6 +45,18 @@ func (env *SpecEnv) ghostCall(name string, x *ast.CallExpr) (Val, bool) {
 			k, _ = env.eval(x.Args[1]).C[0].Int64()
 		}
 		return intVal(Select(Select(vc.heapIn(env.st, "$TraceArgs", SMem), i), IntK(100+k))), true
+	case "evresnil":
+		// evresnil(q, k): the k-th result of the call at trace position q was nil
+		i := env.eval(x.Args[0]).C[0]
+		k := int64(0)
+		if len(x.Args) > 1 {
+			k, _ = env.eval(x.Args[1]).C[0].Int64()
+		}
+		return boolVal(Eq(Select(Select(vc.heapIn(env.st, "$TraceArgs", SMem), i), IntK(200+k)), One)), true
+	case "heaparr":
+		// heaparr(x): x's backing array is not the array of a package-level variable (ids below 2^20 are reserved for those)
+		v := env.eval(x.Args[0])
+		return boolVal(Le(IntK(1<<20), v.C[0])), true
 	case "forallk":
 		// forallk(k, P): unbounded integer quantifier
 		idn, ok := x.Args[0].(*ast.Ident)
@@ -71,6 +83,8 @@ func (env *SpecEnv) ghostCall(name string, x *ast.CallExpr) (Val, bool) {
 		cp := layout(tByte)[0]
 		h := vc.heapIn(env.st, heapNameFor(tByte, cp), heapSort(cp))
 		return mkVal(tByte, Select(Select(h, a), i)), true
+	case "emptykey":
+		return intVal(App("ckey_empty", SInt)), true
 	case "nextarr":
 		return intVal(vc.heapIn(env.st, "$nextArr", SInt)), true
 	case "tracelen":
@@ -146,6 +160,9 @@ func (vc *VC) identityOf(v Val) *Term {
 
 // bytesKey: the map key of string(b); determined by contents -> uninterpreted over (array contents, off, len)
 func (vc *VC) bytesKey(st *State, b Val) *Term {
+	if b.Len() == Zero {
+		return App("ckey_empty", SInt)
+	}
 	if o, ok := vc.origins[b.C[0].id]; ok && b.C[1] == Zero {
 		return App("ckey", SInt, o.row, o.off, b.C[2])
 	}
@@ -173,7 +190,7 @@ func (vc *VC) emitEventSparse(st *State, name string, args []*Term) {
 	ta := vc.heap(st, "$TraceArgs", SMem)
 	row := Select(ta, n)
 	for i, a := range args {
-		if a.Sort != SInt || (i < 100 && a == Zero && i >= 8) {
+		if a.Sort != SInt || (a == Zero && i >= 8) {
 			continue
 		}
 		row = Store(row, IntK(int64(i)), a)
@@ -727,6 +744,18 @@ func (vc *VC) applyContract(x ast.Node, con *Contract, full string, sig *types.S
 		}
 		for i := 0; i < sig.Results().Len(); i++ {
 			evArgs = append(evArgs, vc.identityOfIn(st, post[rnames[i]]))
+		}
+		for len(evArgs) < 200 {
+			evArgs = append(evArgs, Zero)
+		}
+		for i := 0; i < sig.Results().Len(); i++ {
+			rv := post[rnames[i]]
+			nilFlag := Zero
+			switch kindOf(rv.T) {
+			case KIface, KPtr, KSlice, KMap, KFunc:
+				nilFlag = Ite(Eq(rv.C[0], Zero), One, Zero)
+			}
+			evArgs = append(evArgs, nilFlag)
 		}
 		vc.emitEventSparse(st, "Call:"+full, evArgs)
 	}
